@@ -24,6 +24,7 @@ type SV struct {
 
 type specEnv struct {
 	facts []string // type facts of the values mentioned (always true; assumed before use)
+	axioms []string // closed defining axioms of opaque predicates used
 	x     *Exec
 	st    *State
 	old   *State
@@ -57,6 +58,9 @@ func (x *Exec) evalClause(st *State, fr *Frame, cl *Clause, binds map[string]SV)
 		if !strings.Contains(f, "q_") { // facts about quantified variables cannot be hoisted
 			st.assume(f)
 		}
+	}
+	for _, a := range e.axioms {
+		st.assume(a)
 	}
 	tv, ok := v.V.(TV)
 	if !ok || tv.S != SBool {
@@ -750,6 +754,11 @@ func (e *specEnv) call(n *ast.CallExpr) SV {
 		for i := range n.Args {
 			vals[i] = arg(i)
 		}
+		if pd.Opaque {
+			if r, ok := e.opaqueCall(pd, vals); ok {
+				return r
+			}
+		}
 		for i, pn := range pd.Params {
 			saved[pn], had[pn] = e.binds[pn]
 			e.binds[pn] = vals[i]
@@ -869,4 +878,70 @@ func idxPatterns(body, bv string) []string {
 		out = out[:3]
 	}
 	return out
+}
+
+// opaqueCall applies an opaque predicate through an uninterpreted symbol whose
+// defining axiom (triggered on the application) is added to the facts.  It
+// declines (ok=false, the caller expands the body in place) when an argument is
+// not a plain SMT value or when the body reads the heap, which is not an argument.
+func (e *specEnv) opaqueCall(pd *Pred, vals []SV) (SV, bool) {
+	var sorts, args, bvs []string
+	for _, v := range vals {
+		tv, ok := v.V.(TV)
+		if !ok {
+			return SV{}, false
+		}
+		sorts = append(sorts, tv.S)
+		args = append(args, tv.E)
+	}
+	fname := "p_" + pd.Name
+	for _, s := range sorts {
+		fname += "_" + strings.TrimPrefix(strings.TrimPrefix(s, "g_"), "T_")
+	}
+	key := "opaque:" + fname
+	ax, done := e.x.opaqueAx[key]
+	if !done {
+		if e.x.opaqueAx == nil {
+			e.x.opaqueAx = map[string]string{}
+		}
+		saved := map[string]SV{}
+		had := map[string]bool{}
+		if e.binds == nil {
+			e.binds = map[string]SV{}
+		}
+		var binder strings.Builder
+		for i, pn := range pd.Params {
+			bv := fmt.Sprintf("pv_%s_%s", pd.Name, pn)
+			bvs = append(bvs, bv)
+			fmt.Fprintf(&binder, "(%s %s)", bv, sorts[i])
+			saved[pn], had[pn] = e.binds[pn]
+			e.binds[pn] = SV{V: TV{sorts[i], bv}, T: vals[i].T}
+		}
+		nf := len(e.facts)
+		n0 := e.x.freshN
+		e.x.freshN = 900000 + 1000*len(e.x.opaqueAx) // bound names independent of the use site
+		body := e.boolOf(e.eval(pd.Expr))
+		e.x.freshN = n0
+		e.facts = e.facts[:nf]
+		for _, pn := range pd.Params {
+			if had[pn] {
+				e.binds[pn] = saved[pn]
+			} else {
+				delete(e.binds, pn)
+			}
+		}
+		if e.err != nil || strings.Contains(body, "g_H_") {
+			e.x.opaqueAx[key] = ""
+			return SV{}, false
+		}
+		ap := app(fname, bvs...)
+		ax = fmt.Sprintf("(forall (%s) (! (= %s %s) :pattern (%s)))", binder.String(), ap, body, ap)
+		e.x.opaqueAx[key] = ax
+		e.x.w.Decl(fmt.Sprintf("(declare-fun %s (%s) Bool)", fname, strings.Join(sorts, " ")))
+	}
+	if ax == "" {
+		return SV{}, false
+	}
+	e.axioms = append(e.axioms, ax)
+	return SV{V: TV{SBool, app(fname, args...)}}, true
 }
